@@ -1,5 +1,5 @@
 META = dict(
-    functions=['mmd.c: mmd_engine_reset, mmd_parse_token_chain (depth counter balance)', 'writer.c: scratch_pad_new, footnote_free, link_free, meta_free', 'html.c: rand()/srand() sites (gated by EXT_RANDOM_FOOT: asserted in the C10 harnesses)', 'rng.c: ran_num_next / ran_start via mmd_print_char_html(obfuscate)'],
+    functions=['mmd.c: mmd_engine_parse_substring, mmd_engine_reset, mmd_parse_token_chain (depth counter balance)', 'writer.c: scratch_pad_new, footnote_free, link_free, meta_free', 'html.c: rand()/srand() sites (gated by EXT_RANDOM_FOOT: asserted in the C10 harnesses)', 'rng.c: ran_num_next / ran_start via mmd_print_char_html(obfuscate)'],
     stubs=['rand/srand -> counting stubs', 'lemon Parse* -> observers', 'd_string.c -> ds_model', 'asset hash abstracted to empty', 'rng.c -> contract model: ran_start(seed) restarts stream UF[seed], ran_num_next() = next element; never-started stream continues across exports'],
     assumptions=['engine stacks with 0..2 entries of the right kind each'],
     outside=['whole conversions in sequence', 'the token pool across conversions (C18)', 'immutability of the source bytes during a parse'],
@@ -20,6 +20,11 @@ def harnesses(tier):
              unwind=5, timeout=600, mem_gb=4, replay=False,
              bounds='any depth counter 0..limit', desc='mmd_parse_token_chain restores e->recurse_depth on every return path (the engine field survives into the next conversion)'),
     ]
+    hs.append(dict(name='c05_parse_options', src='c05/parsesub.c', defs=dict(DS_CAP=8),
+             units=[dict(src='repo:mmd.c', remove=['mmd_engine_reset', 'mmd_tokenize_string', 'mmd_parse_token_chain', 'mmd_assign_ambidextrous_tokens_in_block', 'mmd_pair_tokens_in_block', 'pair_emphasis_tokens', 'mmd_convert_opml_string', 'mmd_convert_itmz_string']),
+                    'repo:token.c', 'repo:stack.c', 'repo:object_pool.c', 'repo:char.c', 'common/ds_model.c'],
+             unwind=8, timeout=600, mem_gb=4, functional=True, replay=False,
+             bounds='all 2^17 extension sets, any sub-range of the text, engine with or without a stale tree', desc='mmd_engine_parse_substring: reset first, extension word restored (temporary EXT_NO_METADATA does not leak)'))
     hs.append(dict(name='c05_obfus', src='c05/obfus.c', defs=dict(DS_CAP=8, DS_NO_PRINTF=1),
              units=[dict(src='repo:writer.c', remove=['url_accept']), dict(src='repo:html.c', cflags=['-Dexit=verif_exit', '-Dfprintf=verif_fprintf'], remove=['mmd_export_token_tree_html', 'mmd_export_token_tree_html_raw', 'mmd_export_token_tree_html_math']), 'repo:token.c', 'repo:stack.c', 'repo:object_pool.c', 'repo:char.c', 'common/ds_null.c'],
              pool_off=True, unwind=24, timeout=900, mem_gb=8, functional=True, replay=False,
